@@ -247,7 +247,12 @@ def check_twin(case):
             w = wn.Wordnet(lexicon='tw:1 tw:2', expand='')
         for corpus in (['w0'], ['amb', 'w0'], ['w02'], ['w0', 'amb2', 'amb2']):
             for distribute in (True, False):
-                got = wn.ic.compute(corpus, w, distribute_weight=distribute, smoothing=1.0)
+                # (the documentation asks for a Wordnet of a single lexicon: an implementation that refuses this
+                # one with wn.Error is right too; if it computes, each synset must follow its own version's edges)
+                try:
+                    got = wn.ic.compute(corpus, w, distribute_weight=distribute, smoothing=1.0)
+                except wn.Error:
+                    continue
                 # reference: each version contributes along its own edges; ids are shared, so weights add up
                 exp = {p: {None: 1.0} for p in IC_POS}
                 for i in range(n):
@@ -361,7 +366,7 @@ def space(tier, seed):
             gs.append({'n': n, 'loops': True, 'h': h, 'pos': 'n' * n, 'dag': dag})
     for h in dag_masks(4):
         gs.append({'n': 4, 'loops': False, 'h': h, 'pos': 'nnnn', 'dag': True})
-    # adjective / satellite colourings (s counts as a) and a mixed n/v colouring
+    # adjective / satellite colourings (s counts as a)
     for n in (2, 3):
         for h in dag_masks(n):
             for p in (['as', 'sa', 'ss'] if n == 2 else ['asa', 'sas', 'ssa']):
@@ -395,7 +400,7 @@ def run(tier, seed, jobs=None):
     cases = space(tier, seed)
     ng = sum(len(c.get('graphs', [])) for c in cases)
     rule = ('graphs: all digraphs with self-loops n<=3, all DAGs n=4, a/s colourings of DAGs n<=3 (thorough: n=4 and an '
-            'n/v mix); lexicalisation: w0 -> node 0, amb -> nodes {0, n-1}, "stone fruit" -> node 1; corpora: every multiset '
+            'a/s mix); lexicalisation: w0 -> node 0, amb -> nodes {0, n-1}, "stone fruit" -> node 1; corpora: every multiset '
             'of <=2 tokens plus 5 triples (quick) / <=3 tokens (thorough) over {w0, amb, stone fruit, unk}; distribute on/off; '
             'smoothing 1.0/0.5/0.0. evaluations = compute()/load() calls; distinct = distinct weight tables.')
     return runner.run_space(PROP, tier, seed, cases, check, rule=rule, jobs=jobs, chunk=1, recheck=_one,
